@@ -20,6 +20,7 @@ def run(rep: Report, tier: str, only=None) -> None:
 			jobs.append(Job('O1-2.buffer', H, 'buffer_law', c, t, 'S', f'source buffer 1..{c["n"]} over {classes!r} (lexer symbolic, parser per realised token list)', ('accepted', 'rejected', 'compared')))
 	for tmpl in range(6):
 		jobs.append(Job('O3.atom_slots', H, 'atoms_law', {'template': tmpl}, t, 'F', 'atom template with two slots over 26 atom spellings (names next to keywords, 0 / decimal forms, both string quotes, True/False/None and their look-alikes)', ('compared',)))
+	jobs.append(Job('O4.reuse', H, 'reuse_law', {}, t, 'F', 'one SyntaxParser object parses text i, then text j twice, over 13 accepted / rejected texts: the answers for j equal those of a fresh parser', ('after_rejected', 'after_accepted')))
 	jobs.append(Job('O3.rejected_ops', H, 'reject_law', {'template': -1}, t, 'F', '18 operator spellings absent from py_gram.lark in 4 sentence shapes: Errors.Syntax naming a token and an existing line', ('rejected',)))
 	for tmpl in range(13):
 		jobs.append(Job('O3.expr_slots', H, 'template_law', {'template': tmpl}, t, 'F', 'expression template with two operator slots over all 17 binary operator spellings of py_gram.lark (+ - * / % < > == <= >= != in, not in, is, is not, and, or)', ('compared',)))
